@@ -13,7 +13,7 @@ import (
 
 var constructs = recipe.Constructs()
 
-var idNames = []string{"x", "y", "foo", "T", "i", "err", "ok", "_", "a1", "é", "f", "v", "String", "len"}
+var idNames = []string{"x", "y", "foo", "T", "i", "err", "ok", "_", "a1", "é", "f", "v", "String", "len", "0XFF", "1E6", "0B1010", "0O17", "0X1P-2", "1_000", "0x1F", "017", "1i"}
 var opNames = []string{"+", "-", "*", "/", ":=", "=", "==", "!=", "<", "&&", "||", "!", "&", "<-", "...", ":", ";", ".", ",", "++", "+=", "|", "~", "(", ")", "{", "}"}
 var hostileStr = []string{"", " ", "\n", "\"", "`", "//", "/*", "*/", "{", "}", "a b", "x\ny", "\x00", "\xff", "日本", "package", "func()", "1e", "0x", "'", "\\", "\t", ";"}
 var paths = []string{"fmt", "os", "math/rand", "crypto/rand", "a/d", "b/d", "x.y/z", "github.com/u/pkg", "C", "", "strings", "a/b/v2"}
@@ -185,7 +185,9 @@ func Dict(t *rapid.T, depth, width int) *recipe.Node {
 // Expr draws a plausible expression.
 func Expr(t *rapid.T, depth int) *recipe.Node {
 	if depth <= 0 {
-		switch rapid.IntRange(0, 3).Draw(t, "leaf") {
+		switch rapid.IntRange(0, 4).Draw(t, "leaf") {
+		case 4: // a number spelled by the caller (gofmt normalises the spelling: 0XFF -> 0xFF, 1E6 -> 1e6)
+			return recipe.S().C(rapid.SampledFrom([]string{"Id", "Op"}).Draw(t, "rawnum"), rapid.SampledFrom([]string{"0XFF", "1E6", "0B1010", "0O17", "0X1P-2", "0XABCp+3", "1E+2i", "0b1", "0o7"}).Draw(t, "num"))
 		case 0:
 			return recipe.Id(rapid.SampledFrom([]string{"x", "y", "z", "n"}).Draw(t, "var"))
 		case 1:
